@@ -1,7 +1,8 @@
 /- model driver for C06: one operation per input line, one canonical line out -/
 import Batchie.Model.DriverLoop
 import Batchie.Model.ScoresIO
+import Batchie.Model.ScorePipelineIO
 
 open Batchie
 
-def main : IO Unit := DriverLoop.run [ScoresIO.handle, ScreenIO.handle]
+def main : IO Unit := DriverLoop.run [ScoresIO.handle, ScreenIO.handle, ScorePipelineIO.handle]
